@@ -352,7 +352,11 @@ def drive_c19(tier, seed, cfg):
         rp = dict(property="C19", cls=name, data=data[:300].decode("latin-1"))
         if r_file[0] != r_in[0] or r_file[1] != r_in[1]:
             add("file-and-stdin-differ", dict(cls=name, file=(r_file[0], r_file[1][-120:]), stdin=(r_in[0], r_in[1][-120:])), dict(rp, clause="file-and-stdin-differ"))
-        for ch, r in (("file", r_file), ("stdin", r_in)):
+        # the same bytes on stdin while the interpreter's text layer is told another codec: the report_id is the SHA-256 of
+        # the BYTES that came in, whatever sys.stdin would decode them to
+        r_enc = run_plan(["--quiet", "report", "-"], cwd, tmp, data, extra_env={"PYTHONIOENCODING": "latin-1"})
+        C["invocations"] += 1
+        for ch, r in (("file", r_file), ("stdin", r_in), ("stdin under PYTHONIOENCODING=latin-1", r_enc)):
             if r[0] == 0:
                 ok, cols, rows, rid, prob = parse_stdout("json", r[1])
                 if not ok:
